@@ -4,7 +4,7 @@
    verifier.Parse on every run, error class included. *)
 From Coq Require Import List String ZArith NArith Bool.
 Import ListNotations.
-From VF Require Import C18.Model C18.Walk C18.Proofs C18.Exact C18.Accept C18.WalkProofs C18.WalkSound C18.WalkClass C18.WalkComplete C18.WalkHonest.
+From VF Require Import C18.Model C18.Walk C18.Proofs C18.Exact C18.Accept C18.WalkProofs C18.WalkSound C18.WalkClass C18.WalkComplete C18.WalkHonest C18.WalkIssued.
 Open Scope string_scope.
 Open Scope list_scope.
 
@@ -30,20 +30,36 @@ Theorem interleaved_iff_layered : forall vo p out,
 Proof. exact verify_w_iff. Qed.
 Print Assumptions interleaved_iff_layered.
 
-(* exactly the visible and the chosen claims, about the interleaved verifier (guard as in Props.disclose_exact_partial) *)
+(* whatever the issuer model emits from a clean claim set meets wfb *)
+Theorem issued_payload_is_wellformed : forall o claims payload ds,
+  clean (VObj claims) = true -> ~ In "iss" (map fst claims) -> ~ In "cnf" (map fst claims) ->
+  issue o claims = Ok (payload, ds) -> wfb payload = true.
+Proof. exact issue_wfb. Qed.
+Print Assumptions issued_payload_is_wellformed.
+
+(* exactly the visible and the chosen claims, about the interleaved verifier: the guard of Props.disclose_exact_partial
+   and nothing else *)
 Theorem interleaved_disclose_exact_partial : forall o claims sel payload ds vo hb,
   alg_ok (o_alg o) -> clean (VObj claims) = true ->
   ~ In "iss" (map fst claims) -> ~ In "cnf" (map fst claims) ->
   forallb site_path sel = true -> closedb sel ds = true ->
   (o_v5 o = true -> akept5 o sel false [] (VObj claims) = true) ->
   issue o claims = Ok (payload, ds) ->
-  wfb payload = true ->
   payload_time_ok vo payload = true ->
   holder_verification vo payload hb = Ok tt ->
   exists out, verify_w vo {| p_sig_ok := true; p_payload := payload; p_discs := choose sel ds; p_hb := hb |} = WOk out /\
               veq out (reveal o sel claims).
-Proof. exact honest_flow_w. Qed.
+Proof. exact honest_flow_w'. Qed.
 Print Assumptions interleaved_disclose_exact_partial.
+
+(* FOREIGN / ALTERED / RE-ENCODED / DECOY PREIMAGE, about the interleaved verifier and issued SD-JWTs, no extra hypothesis *)
+Theorem interleaved_rejects_unissued_issued : forall o claims payload ds vo p d,
+  alg_ok (o_alg o) -> clean (VObj claims) = true ->
+  ~ In "iss" (map fst claims) -> ~ In "cnf" (map fst claims) ->
+  issue o claims = Ok (payload, ds) ->
+  p_payload p = payload -> In d (p_discs p) -> ~ In d ds -> w_ok (verify_w vo p) = false.
+Proof. exact w_reject_unissued_issued. Qed.
+Print Assumptions interleaved_rejects_unissued_issued.
 
 (* without any hypothesis: the output, and the tests that do not depend on the walk *)
 Theorem interleaved_output_is_layered_output : forall vo p out,
